@@ -283,7 +283,38 @@ pub mod gsq {
         pub fn idx(self) -> u8 {
             self.0.idx()
         }
+        pub fn array_idx(self) -> usize {
+            self.0.array_idx()
+        }
+        pub fn bb(self) -> crate::chess::bitboard::Bitboard {
+            self.0.bb()
+        }
+        pub fn forward(self, p: crate::chess::player::Player) -> Self {
+            Square(self.0.forward(p))
+        }
+        pub fn backward(self, p: crate::chess::player::Player) -> Self {
+            Square(self.0.backward(p))
+        }
+        pub fn north(self) -> Self {
+            Square(self.0.north())
+        }
+        pub fn south(self) -> Self {
+            Square(self.0.south())
+        }
+        pub fn relative_for(self, p: crate::chess::player::Player) -> Self {
+            Square(self.0.relative_for(p))
+        }
         //@@ body: chess/square.rs :: impl Square / fn notation => notation
+    }
+    impl From<crate::chess::square::Square> for Square {
+        fn from(s: crate::chess::square::Square) -> Self {
+            Square(s)
+        }
+    }
+    impl From<Square> for crate::chess::square::Square {
+        fn from(s: Square) -> Self {
+            s.0
+        }
     }
     impl PartialEq<crate::chess::square::Square> for Square {
         fn eq(&self, o: &crate::chess::square::Square) -> bool {
